@@ -405,3 +405,62 @@ def untagged(fx):
             yield ob("R-C14-4", "untagged#Response#%s<%s" % (ev, lv), bool(missing), None, None,
                      "required keys of %s that %s never writes: %s" % (ev, lv, missing), {"required": sorted(e["required"]), "later_writes": sorted(l["ser_maybe"])})
     yield ob("R-C14-4", "untagged#Response#variants", set(order) == set(known), None, None, "variants %s" % order, trivial=True)
+
+
+@PROP.rule("R-C14-6", floor=8, doc="compact peer entries: address then port, both big-endian, in every writer and reader of the peer strings")
+def compact_peers(fx):
+    """BEP 23 / BEP 7: 4 (16) address bytes in network order followed by the 2 port bytes in network order. R-C14-1 decides the
+    widths and the length accounting; this rule decides WHICH bytes: to_be_bytes of the integer form of the element's own
+    ip_address, then to_be_bytes of the same element's port - and from_be_bytes of chunk[0..N] / chunk[N..N+2] in the readers."""
+    def norm(x):
+        x = re.sub(r"\(<Iter as Iterator>::next\(.*?\) as Some\)\.0", "ELEM", x)
+        return x
+    want = {4: ("<impl u32>::to_be_bytes(<impl From for u32>::from(ELEM.ip_address))", "<impl u16>::to_be_bytes(ELEM.port)"),
+            16: ("<impl u128>::to_be_bytes(<impl From for u128>::from(ELEM.ip_address))", "<impl u16>::to_be_bytes(ELEM.port)")}
+    # 1. the hand-written reply writer
+    b = fx.fn("aquatic_http_protocol::response::AnnounceResponse::write_bytes")
+    seqs = {4: set(), 16: set()}
+    for p in ok_paths([q for q in cpaths(fx, b) if q.end == "return"]):
+        toks = [t for t in writer_tokens(fx, p, b) if t[0] == "fixed"]
+        for i, t in enumerate(toks):
+            if t[1] in (4, 16):
+                nxt = toks[i + 1] if i + 1 < len(toks) else None
+                a = show(strip_after(t[2]))
+                pr = show(strip_after(nxt[2])) if nxt is not None and nxt[1] == 2 else "<missing>"
+                same = re.findall(r"self\.peers6?\.0", a) == re.findall(r"self\.peers6?\.0", pr)
+                seqs[t[1]].add((norm(a), norm(pr), same))
+    for n in (4, 16):
+        yield ob("R-C14-6", "compact#write_bytes#v%d" % (4 if n == 4 else 6), seqs[n] == {want[n] + (True,)}, b, None,
+                 "per element: %s" % sorted(seqs[n]), {"tokens": [list(map(str, x)) for x in sorted(seqs[n])]})
+    # 2. the serde serialisers used by the client side / load tester
+    for fam, n in (("4", 4), ("6", 16)):
+        bb = fx.fn("aquatic_http_protocol::utils::serialize_response_peers_ipv" + fam)
+        seq = set()
+        for p in cpaths(fx, bb):
+            ex = [norm(show(strip_after(e[2][1]))) for e in p.calls(r"extend_from_slice$")]
+            for i in range(0, len(ex) - 1, 2):
+                seq.add((ex[i], ex[i + 1]))
+            if len(ex) % 2:
+                seq.add((ex[-1], "<missing>"))
+        yield ob("R-C14-6", "compact#serialize#v" + fam, seq == {want[n]}, bb, None, "per element: %s" % sorted(seq), {"tokens": [list(x) for x in sorted(seq)]})
+    # 3. the readers
+    for fam, n, ity in (("4", 4, "u32"), ("6", 16, "u128")):
+        cl = fx.fn("<aquatic_http_protocol::utils::ResponsePeersIpv%sVisitor as aquatic_http_protocol::common::_::_serde::de::Visitor>::visit_bytes::{closure#0}" % fam)
+        rets, copies = set(), set()
+        for p in cpaths(fx, cl):
+            if p.end != "return":
+                continue
+            rets.add(re.sub(r"\[0:u8; \d+\]", "BUF", show(strip_after(p.ret))))
+            copies.add(tuple(re.sub(r"^.*index\(chunk, ", "chunk[", show(strip_after(e[2][1]))) for e in p.calls(r"copy_from_slice$")))
+        wr = "ResponsePeer::ResponsePeer{ip_address: <Ipv%sAddr as From>::from(<impl %s>::from_be_bytes(BUF)), port: <impl u16>::from_be_bytes(BUF)}" % (fam, ity)
+        wc = ("chunk[Range::Range{start: 0:usize, end: %d:usize})" % n, "chunk[Range::Range{start: %d:usize, end: %d:usize})" % (n, n + 2))
+        yield ob("R-C14-6", "compact#deserialize#v" + fam, rets == {wr} and copies == {wc}, cl, None, "element = %s from %s" % (sorted(rets), sorted(copies)),
+                 {"ret": sorted(rets), "copies": [list(c) for c in sorted(copies)]})
+    # chunk widths of the readers
+    for fam, n in (("4", 6), ("6", 18)):
+        vb = fx.fn("<aquatic_http_protocol::utils::ResponsePeersIpv%sVisitor as aquatic_http_protocol::common::_::_serde::de::Visitor>::visit_bytes" % fam)
+        w = set()
+        for p in cpaths(fx, vb):
+            for e in p.calls(r"chunks_exact$"):
+                w.add(const_int(strip_after(e[2][1])))
+        yield ob("R-C14-6", "compact#chunk_width#v" + fam, w == {n}, vb, None, "chunks_exact(%s)" % sorted(map(str, w)), {"width": sorted(map(str, w))})
